@@ -54,6 +54,8 @@ class Result(object):
         self.out_stores = 0
         self.in_loads = 0
         self.compared = 0        # load/store pairs with the same symbolic part
+        self.loads = []          # (form, size, ins) of every input load
+        self.stores = []         # (form, size, ins) of every output store
         self.load_parts = set()  # symbolic parts of input-load addresses (any order)
         self.store_parts = set() # symbolic parts of output-store addresses
 
@@ -252,6 +254,7 @@ def analyse(f, in_reg, out_reg, p1):
                     if i.reads_mem_operand() and in_reg in fr and out_reg not in fr:
                         res.in_loads += 1
                         res.load_parts.add(a[1])
+                        res.loads.append((a, size, i))
                         for (pf, psz, pins) in pend:
                             if pf[1] != a[1]:
                                 continue
@@ -263,6 +266,7 @@ def analyse(f, in_reg, out_reg, p1):
                     if i.writes_mem_operand() and out_reg in fr and in_reg not in fr:
                         res.out_stores += 1
                         res.store_parts.add(a[1])
+                        res.stores.append((a, size, i))
                         pend.add((a, size, i))
             # an instruction that executes again re-binds its opaque result: drop stale entries
             pend = set(p for p in pend if not _mentions(p[0], lambda s, _a=i.addr: s[0] == "op" and s[1] == _a))
@@ -279,3 +283,32 @@ def analyse(f, in_reg, out_reg, p1):
                     work.append(s)
     res.matchable = len(res.load_parts & res.store_parts)   # address shapes the analysis can relate at all (order-insensitive)
     return res
+
+
+def _mask_of(i):
+    import re
+    m = re.search(r"\{(k[1-7])\}", i.text.replace(" ", ""))
+    return m.group(1) if m else None
+
+
+def mask_asymmetry(res):
+    """Length-preserving bodies read and write the same byte ranges.  Where an output store at some address shape
+    is confined by an opmask, an *unmasked* input load of the same shape, offset and size reads bytes the function
+    itself does not treat as data: [(load ins, store ins)].  Pairs under different masks are not judged."""
+    out = []
+    seen = set()
+    st = {}
+    for (a, size, i) in res.stores:
+        st.setdefault((a[1], a[0], size), []).append(i)
+    for (a, size, i) in res.loads:
+        if i.addr in seen:
+            continue
+        ss = st.get((a[1], a[0], size))
+        if not ss:
+            continue
+        lm = _mask_of(i)
+        masks = {_mask_of(x) for x in ss}
+        if lm is None and None not in masks:
+            seen.add(i.addr)
+            out.append((i, ss[0]))
+    return out
